@@ -241,6 +241,11 @@ OfferOf(d, S, si) ==
                 ELSE IF t \in TaskNames(d) THEN d.tasks[t].delay ELSE -1,
       ctx |-> CtxMerge(S, s.ctxin)]
 
+RECURSIVE LogBad(_, _, _)
+LogBad(S, idxs, Sref) ==
+  IF idxs = << >> THEN S
+  ELSE LogBad(LogErr(S, "expr", Sref.staged[Head(idxs)].id, Sref.staged[Head(idxs)].route, "none", <<2>>), Tail(idxs), Sref)
+
 Query(d, S) ==
   LET rem   == IF S.wf = "failed" THEN {i \in StagedReadyIdx(S) : S.staged[i].rof} ELSE {}
       cands == IF rem # {} THEN rem ELSE StagedReadyIdx(S)
@@ -256,7 +261,12 @@ Query(d, S) ==
               srt == SortSeq(SetToSeq(keep),
                              LAMBDA a, b : d.rank[S1.staged[a].id] < d.rank[S1.staged[b].id]
                                            \/ (S1.staged[a].id = S1.staged[b].id /\ S1.staged[a].route < S1.staged[b].route))
-          IN [S |-> S1, offers |-> [k \in 1..Len(srt) |-> raw[srt[k]]]]
+              \* candidates whose action / input / items / concurrency / delay fail to render are
+              \* logged (in staging order), the workflow is failed and nothing is returned (l.724-732)
+              badc == {i \in cands : S.staged[i].id \in TaskNames(d) /\ d.tasks[S.staged[i].id].bad # ""}
+              S1b  == [S1 EXCEPT !.staged = [i \in 1..Len(S1.staged) |-> IF i \in badc THEN S.staged[i] ELSE S1.staged[i]]]
+          IN IF badc = {} THEN [S |-> S1, offers |-> [k \in 1..Len(srt) |-> raw[srt[k]]]]
+             ELSE [S |-> Req(d, LogBad(S1b, Asc(badc), S1b), "failed").S, offers |-> << >>]
 
 (* ------------------------------------------------------------------------------------------ *)
 (* API: update_task_state (l.837-1099)                                                        *)
@@ -267,7 +277,10 @@ AddRecord(d, S, t, r, ctxin, prev) ==                             \* add_task_st
       rc  == [id |-> t, route |-> r, st |-> "null", term |-> FALSE, prev |-> prev, next |-> << >>,
               ctxin |-> IF ctxin = << >> THEN <<0>> ELSE ctxin,
               hasretry |-> hr, rcount |-> cnt, rtally |-> 0, rdelay |-> dly]
-  IN [S EXCEPT !.seq = Append(@, rc), !.ptr = Upd(@, Rid(t, r), Len(S.seq))]
+      rb  == t \in TaskNames(d) /\ d.tasks[t].rbad # ""
+      rc1 == IF rb THEN [rc EXCEPT !.rcount = 0, !.rdelay = -1] ELSE rc
+      S1  == [S EXCEPT !.seq = Append(@, rc1), !.ptr = Upd(@, Rid(t, r), Len(S.seq))]
+  IN IF rb THEN Req(d, LogErr(S1, "expr", t, r, "none", <<2>>), "failed").S ELSE S1
 
 EvalRoute(d, S, t, e, r) ==                                        \* _evaluate_route l.1101
   IF ~IsSplit(d, e.dst) \/ InCycle(d, e.dst) THEN [S |-> S, route |-> r]
@@ -284,13 +297,13 @@ RetryWhen(d, t) == IF d.tasks[t].retry.on THEN d.tasks[t].retry.when ELSE
                    IN IF d.tasks[t].next[i].when.k = "always" THEN [k |-> "completed", v |-> "", n |-> 0]
                       ELSE d.tasks[t].next[i].when
 
-ShouldRetry(d, S, li, res) ==                                      \* _evaluate_task_retry l.1128
+RetryEval(d, S, li, res) ==                                        \* _evaluate_task_retry l.1128: "T" | "F" | "E"
   LET rc == S.seq[li] IN
-  /\ rc.hasretry
-  /\ rc.rtally < rc.rcount
-  /\ LET w == RetryWhen(d, rc.id) IN
-     IF w.k = "default" THEN rc.st \in Abended
-     ELSE EvalCond(w, rc.st, res, CtxMerge(S, rc.ctxin)) = "T"
+  IF ~rc.hasretry \/ rc.rtally >= rc.rcount THEN "F"
+  ELSE LET w == RetryWhen(d, rc.id) IN
+       IF w.k = "default" THEN (IF rc.st \in Abended THEN "T" ELSE "F")
+       ELSE EvalCond(w, rc.st, res, CtxMerge(S, rc.ctxin))
+ShouldRetry(d, S, li, res) == RetryEval(d, S, li, res) = "T"
 
 Ev(kind, name, status, item, res, acc) ==
   [kind |-> kind, name |-> name, status |-> status, item |-> item, res |-> res, acc |-> acc]
@@ -355,6 +368,10 @@ MarkRof(S, keys) ==
   [S EXCEPT !.staged = [i \in 1..Len(S.staged) |->
      IF <<S.staged[i].id, S.staged[i].route>> \in keys THEN [S.staged[i] EXCEPT !.rof = TRUE] ELSE S.staged[i]]]
 
+(* fix: the workflow is only held by a pause and the resume will complete it (nothing left to run) *)
+HeldComplete(S, li) == /\ S.wf = "paused" /\ S.seq[li].st \in Completed
+                       /\ ~HasActive(S) /\ ~HasStaged(S) /\ ~HasPausedT(S)
+
 RECURSIVE UTS(_, _, _, _, _)
 RECURSIVE RunQueue(_, _, _)
 
@@ -394,7 +411,7 @@ UTS(d, S, t, r, ev) ==
            Sh == RemoveStaged(Sg, t, r)
            Si == [Sh EXCEPT !.staged = Append(@, NewStaged(t, r, Sh.seq[li].ctxin, Sh.seq[li].prev, TRUE, TRUE))]
            Sj == ProcTaskEvent(d, Si, t, r, "retrying")
-       IN [S |-> [Sj EXCEPT !.seq[li].term = @ \/ Sj.wf \in Completed], ret |-> "ok"]
+       IN [S |-> [Sj EXCEPT !.seq[li].term = @ \/ Sj.wf \in Completed \/ HeldComplete(Sj, li)], ret |-> "ok"]
   ELSE
   LET isItems == HasItems(d, t)
       \* l.930-937
@@ -407,8 +424,12 @@ UTS(d, S, t, r, ev) ==
   IF new \in Completed /\ Sg.wf \in ActiveSt /\ ShouldRetry(d, Sg, li, res)
   THEN UTS(d, Sg, t, r, EngineEv("retry"))                        \* l.949-952
   ELSE
+  LET \* (as repaired) a retry condition that fails to evaluate is logged and fails the workflow
+      Sg2 == IF new \in Completed /\ Sg.wf \in ActiveSt /\ RetryEval(d, Sg, li, res) = "E"
+             THEN Req(d, LogErr(Sg, "expr", t, r, "none", <<2>>), "failed").S ELSE Sg
+  IN
   LET Sh == IF new \in Completed /\ new # old
-            THEN LET a0 == [S |-> IF Len(Edges(d, t)) = 0 THEN [Sg EXCEPT !.seq[li].term = TRUE] ELSE Sg,
+            THEN LET a0 == [S |-> IF Len(Edges(d, t)) = 0 THEN [Sg2 EXCEPT !.seq[li].term = TRUE] ELSE Sg2,
                             queue |-> << >>, manualFail |-> FALSE, readied |-> {}]
                      a1 == Edges_(d, a0, li, t, r, 1, res)
                      \* fix: terminal also when transitions exist but none is satisfied
@@ -416,10 +437,10 @@ UTS(d, S, t, r, ev) ==
                      a2 == IF Len(Edges(d, t)) > 0 /\ ~(\E k \in DOMAIN nx : nx[k])
                            THEN [a1 EXCEPT !.S.seq[li].term = TRUE] ELSE a1
                  IN [S |-> IF a2.manualFail THEN MarkRof(a2.S, a2.readied) ELSE a2.S, queue |-> a2.queue]
-            ELSE [S |-> Sg, queue |-> << >>]
+            ELSE [S |-> Sg2, queue |-> << >>]
       Si == ProcTaskEvent(d, Sh.S, t, r, Sh.S.seq[li].st)          \* l.1086
       Sj == RunQueue(d, Si, Sh.queue)                              \* l.1090
-  IN [S |-> [Sj EXCEPT !.seq[li].term = @ \/ Sj.wf \in Completed], ret |-> "ok"]
+  IN [S |-> [Sj EXCEPT !.seq[li].term = @ \/ Sj.wf \in Completed \/ HeldComplete(Sj, li)], ret |-> "ok"]
 
 RunQueue(d, S, q) ==
   IF q = << >> THEN S
